@@ -412,7 +412,9 @@ func checkC03(c *ctx) {
 		}
 		b := zh.GenBatch(c.R, o)
 		if c.R.Chance(3) {
-			b = sparsify(c, b)
+			if sb := sparsify(c, cloneBatch(b)); sb.InDomain() {
+				b = sb
+			}
 		}
 		mode := randMode(c)
 		sb, obs, spec, err := buildObs(c, b, mode)
@@ -450,6 +452,14 @@ func checkC03(c *ctx) {
 			return
 		}
 	}
+}
+
+func cloneBatch(b zh.Batch) zh.Batch {
+	nb := make(zh.Batch, len(b))
+	for i, d := range b {
+		nb[i] = zh.Doc{Comps: append([]zh.Field(nil), d.Comps...), Fields: append([]zh.Field(nil), d.Fields...)}
+	}
+	return nb
 }
 
 // sparsify removes one doc-value field from a run of documents, producing empty chunks between populated ones
